@@ -378,6 +378,10 @@ class Execution(object):
 
     def finish_check(self, expected):
         """After all threads finished: results vs sequential results, exceptions, monitor."""
+        for t, st in sorted(self.s.ts.items()):
+            if st.exc and st.exc[0] == "SchedulerStuck":
+                # a parked thread gave up waiting for its turn (timing, not behaviour): handled like a stuck hand-off
+                raise sched.SchedulerStuck("thread %s timed out waiting for its turn" % t)
         out = list(self.problems)
         stuck = blocked_threads(self)
         if stuck:
@@ -757,6 +761,10 @@ class KeyExecution(object):
         return (tuple(regs), ref, tuple((t, tuple(self.reads.get(t, ())), repr(self.s.ts[t].pending)[:40]) for t in sorted(self.s.ts)))
 
     def finish_check(self, expected):
+        for t, st in sorted(self.s.ts.items()):
+            if st.exc and st.exc[0] == "SchedulerStuck":
+                # a parked thread gave up waiting for its turn (timing, not behaviour): handled like a stuck hand-off
+                raise sched.SchedulerStuck("thread %s timed out waiting for its turn" % t)
         out = list(self.problems)
         stuck = blocked_threads(self)
         if stuck:
